@@ -175,9 +175,11 @@ class SemPlumber:
         if kind[0] == "rule":
             d = ("one", ("app", kind[1], ()))
         elif kind[0] == "ws":
-            d = ("one", ("app", "Whitespace", ()))
+            return ("unitvalue",)
         elif kind[0] == "terminal":
-            d = ("one", ("app", "char", ())) if TERMINALS[kind[1]] == "anychar" else ("one", ("app", "<terminal>", ()))
+            if TERMINALS[kind[1]] != "anychar":
+                return ("unitvalue",)      # literals, ranges and `$` are never fields: their values are discarded
+            d = ("one", ("app", "char", ()))
         elif kind[0] == "sub":
             d = self.desc_fn(kind[1], lift2.P1)
         elif kind[0] == "arm":
@@ -297,10 +299,16 @@ class SemPlumber:
             return self.desc_loop(tree, info, where)
         objs = ro.get((id(tree), "ENTRY", "ENTRY"), [])
         term = self.L.cache.get((path, entry))
-        if term is not None and term[0] in ("not", "and"):
-            return ("unit",)         # lookaheads produce no value
         leaf0 = self.navigate(tree, set(), where)
-        V0 = self.result_of(leaf0, where)
+        try:
+            V0 = self.result_of(leaf0, where)
+        except Unliftable:
+            # a negated lookahead succeeds where its body fails: the value is that of the path on which the first call fails
+            if term is not None and term[0] == "not" and objs:
+                leaf0 = self.navigate(tree, {id(self.first_atom(objs[0]))}, where)
+                V0 = self.result_of(leaf0, where)
+            else:
+                raise
         if V0[0] == "tuple" and not V0[1]:
             return ("unit",)
         p0 = payload_of(V0)
@@ -376,7 +384,10 @@ class SemPlumber:
         wrap = (lambda p: p if p == DEFAULT else ("opt", p)) if whole_opt else (lambda p: p)
         if struct:
             return ("struct", tuple((n.replace("r#", ""), wrap(describe(n))) for n in struct_names))
-        return ("one", wrap(describe(None)))
+        d1 = describe(None)
+        if d1 == DEFAULT and all(c[0] in ("c", "unitvalue") for c in self.contribs(leaf0, V0, where)):
+            return ("unit",)         # nothing but discarded values (literals, whitespace, `$`)
+        return ("one", wrap(d1))
 
     def _is_enum(self, adt_path):
         adt = self.inst.crate.adts.get(adt_path)
@@ -526,7 +537,9 @@ def norm_prov(p):
             return out[0]
         return ("alt", tuple(out))
     if p[0] == "seq":
-        xs = tuple(norm_prov(x) for x in p[1])
+        xs = tuple(x for x in (norm_prov(x) for x in p[1]) if x != DEFAULT)
+        if not xs:
+            return DEFAULT
         return xs[0] if len(xs) == 1 else ("seq", xs)
     if p[0] == "opt":
         return norm_prov(("alt", (p[1], DEFAULT)))
